@@ -364,12 +364,16 @@ inductive FieldKind where
 /-- A statement record as the matchers see it. -/
 abbrev Record := Field → FieldKind
 
-/-- `EntityMatcher::captures` for one (field, pattern) of a field matcher. -/
-def fieldCaptures (cap : Captures) (r : Record) (f : Field) (pat : String) (frag : Fragment) : Option Matched :=
-  match r f with
+/-- `EntityMatcher::captures` by the way the field is read. -/
+def kindCaptures (cap : Captures) (k : FieldKind) (pat : String) (frag : Fragment) : Option Matched :=
+  match k with
   | .payee original => (frag.payee.or original).bind (cap pat)
   | .text value keep => (value.bind (cap pat)).map fun m => if keep then m else {}
   | .code value => value.bind fun v => if v = pat then some {} else none
+
+/-- `EntityMatcher::captures` for one (field, pattern) of a field matcher. -/
+def fieldCaptures (cap : Captures) (r : Record) (f : Field) (pat : String) (frag : Fragment) : Option Matched :=
+  kindCaptures cap (r f) pat frag
 
 /-- `MatchAndExpr::extract`: `try_fold` over the matchers *in the map's iteration order*; each
 matcher sees the payee/code captured by the ones before it. -/
